@@ -22,6 +22,7 @@
 #include <cstring>
 
 
+#include <xercesc/dom/DOMException.hpp>
 #include <xercesc/sax/SAXParseException.hpp>
 
 
@@ -814,6 +815,36 @@ XalanTransformer::parseSource(
             *m_stylesheetExecutionContext,
             e,
             m_errorMessage);
+
+        theResult = -4;
+    }
+    catch(const xercesc::DOMException&     e)
+    {
+        // The Xerces DOM parser reports some errors this way, an
+        // unsupported version in the XML declaration, for example.
+        static const XalanDOMChar   theDefaultMessage[] =
+        {
+            XalanUnicode::charLetter_D,
+            XalanUnicode::charLetter_O,
+            XalanUnicode::charLetter_M,
+            XalanUnicode::charLetter_E,
+            XalanUnicode::charLetter_x,
+            XalanUnicode::charLetter_c,
+            XalanUnicode::charLetter_e,
+            XalanUnicode::charLetter_p,
+            XalanUnicode::charLetter_t,
+            XalanUnicode::charLetter_i,
+            XalanUnicode::charLetter_o,
+            XalanUnicode::charLetter_n,
+            0
+        };
+
+        const XalanDOMChar* const   theMessage = e.getMessage();
+
+        TranscodeToLocalCodePage(
+            theMessage != 0 && *theMessage != 0 ? theMessage : theDefaultMessage,
+            m_errorMessage,
+            true);
 
         theResult = -4;
     }
